@@ -44,11 +44,12 @@ const (
 	SPark     = 39 // pos : the next store operation parks at 1 before put 2 after put 3 before delete 4 after delete
 	SFailRel  = 40 // pod flag : releasing this pod's allocation fails at the interface
 	SRecreate = 44 // pod : the pod object is replaced by a new instance of the same name (new uid)
+	SFailSt   = 46 // the disk transaction of the next store mutation fails before it has any effect (error to the caller)
 	SGCRace   = 45 // pod rid cid : a GC pass; right after the API has answered its question about this pod (parked on the way back)
 	//                          the pod is created again under its name and the ADD of the new sandbox arrives; then the answer is delivered
 	// observations
 	EReplyRPC = 41 // rid kind code eni a4 a6   (kind 1 add 2 del 3 get; code 0 ok 1 processing 2 error)
-	EStore    = 42 // op pod cid eni a4 a6       (op 1 put-begin 2 put-done 3 delete-begin 4 delete-done)
+	EStore    = 42 // op pod cid eni a4 a6       (op 1 put-begin 2 put-done 3 delete-begin 4 delete-done 5 put-failed 6 delete-failed)
 	EGCDone   = 43 // code
 )
 
@@ -134,6 +135,7 @@ type recStore struct {
 	path  string
 	mu    sync.Mutex
 	park  int             // position at which the next mutation parks (0: none)
+	fail  bool            // the next mutation's disk transaction fails
 	gates []chan struct{} // closed by the crash that ends the parked goroutines
 }
 
@@ -165,6 +167,14 @@ func (s *recStore) maybePark(pos int) bool {
 	return true
 }
 
+func (s *recStore) takeFail() bool {
+	s.mu.Lock()
+	defer s.mu.Unlock()
+	f := s.fail
+	s.fail = false
+	return f
+}
+
 var errCrashed = fmt.Errorf("crashed")
 
 func (s *recStore) openGates() {
@@ -183,7 +193,19 @@ func (s *recStore) Put(key string, value interface{}) error {
 	if s.maybePark(1) {
 		return errCrashed
 	}
+	failing := s.takeFail()
+	if failing {
+		_ = storage.VerifFailWrites(s.inner, true)
+	}
 	err := s.inner.Put(key, value)
+	if failing {
+		if e2 := storage.VerifFailWrites(s.inner, false); e2 != nil {
+			panic(e2)
+		}
+	}
+	if err != nil {
+		s.w.Ev(EStore, 5, p, cid, e, a4, a6)
+	}
 	if err == nil {
 		s.w.Ev(EStore, 2, p, cid, e, a4, a6)
 		if r, ok := value.(daemon.PodResources); ok && r.PodInfo != nil {
@@ -201,9 +223,20 @@ func (s *recStore) Delete(key string) error {
 	if s.maybePark(3) {
 		return errCrashed
 	}
+	failing := s.takeFail()
+	if failing {
+		_ = storage.VerifFailWrites(s.inner, true)
+	}
 	err := s.inner.Delete(key)
+	if failing {
+		if e2 := storage.VerifFailWrites(s.inner, false); e2 != nil {
+			panic(e2)
+		}
+	}
 	if err == nil {
 		s.w.Ev(EStore, 4, p, 0, 0, 0, 0)
+	} else {
+		s.w.Ev(EStore, 6, p, 0, 0, 0, 0)
 	}
 	if s.maybePark(4) {
 		return errCrashed
@@ -551,6 +584,12 @@ func eval(t *testing.T) func(in []*big.Int) ([]*big.Int, []*big.Int) {
 						w.FailRelease[rec[1]] = rec[2] != 0
 						w.Ev(SFailRel, rec[1], rec[2])
 						w.Quiesce()
+					case SFailSt:
+						r.st.mu.Lock()
+						r.st.fail = true
+						r.st.mu.Unlock()
+						w.Ev(SFailSt)
+						w.Quiesce()
 					case SPark:
 						r.st.mu.Lock()
 						r.st.park = rec[1]
@@ -689,14 +728,37 @@ func genCase(r *hx.Rand, prop string) []*big.Int {
 					recs = append(recs, []int{SAPIErr, r.Intn(2)})
 				}
 			case "C05":
-				switch r.Intn(4) {
+				switch r.Intn(5) {
 				case 0, 1:
 					recs = append(recs, []int{SCrash})
+				case 2:
+					recs = append(recs, []int{SFailSt})
+					if cidOf[pod] != 0 && r.Chance(1, 2) {
+						// the failing write hits the ADD of a new sandbox of a pod that holds an acknowledged allocation; other pods ask next,
+						// then the daemon dies: what was acknowledged must be what the restart finds
+						rid++
+						cidOf[pod]++
+						recs = append(recs, []int{SAdd, rid, pod, cidOf[pod]})
+						for k := 0; k < 2; k++ {
+							q := 1 + r.Intn(npods)
+							if q == pod {
+								continue
+							}
+							rid++
+							if cidOf[q] == 0 {
+								cidOf[q] = q * 10
+							}
+							recs = append(recs, []int{SAdd, rid, q, cidOf[q]})
+						}
+						recs = append(recs, []int{SCrash})
+					}
 				default:
 					recs = append(recs, []int{SPark, 1 + r.Intn(4)})
 				}
 			default:
-				if r.Chance(1, 3) {
+				if prop == "C04" && r.Chance(1, 4) {
+					recs = append(recs, []int{SFailSt})
+				} else if r.Chance(1, 3) {
 					recs = append(recs, []int{SGC})
 				} else if r.Chance(1, 2) {
 					recs = append(recs, []int{SPodGone, pod})
